@@ -59,9 +59,64 @@ pub fn c_node_iter_seq<S: Src>(s: &mut S) {
 
 harness!(g_node_iter_seq, c_node_iter_seq, unwind 12);
 
+/// NATIVE REPLAY ONLY (no Kani harness: boomphf's MPHF construction is intractable for CBMC): build the unstranded Kmer5 graph of
+/// ONE read (<= 16 bases, taken from the value source), export it as GFA, and check the link clause of C20 on the real code:
+/// every adjacency the graph reports (an edge of some node side) is listed by at least one L line, in either direction.
+/// It is the concrete witness of the Verus obligation verus:gfalinks::gfa_links.
+pub fn c_gfa_links_read<S: Src>(s: &mut S) {
+    use crate::compression::{compress_kmers_with_hash, SimpleCompress};
+    use crate::dna_string::DnaString;
+    use crate::filter::{filter_kmers, CountFilter};
+    use crate::kmer::Kmer5;
+    let n = s.usize();
+    s.assume(n >= 5 && n <= 16);
+    let mut read = DnaString::new();
+    let mut i = 0;
+    while i < n {
+        let b = s.u8();
+        s.assume(b < 4);
+        read.push(b);
+        i += 1;
+    }
+    let seqs = vec![(read, Exts::empty(), 0u8)];
+    let summarizer: Box<CountFilter> = Box::new(CountFilter::new(1));
+    let (index, _) = filter_kmers::<Kmer5, _, _, _, _>(&seqs, &summarizer, false, false, 4);
+    let spec = SimpleCompress::new(|a: u16, b: &u16| a.saturating_add(*b));
+    let graph = compress_kmers_with_hash(false, &spec, &index).finish_serial();
+    let mut out: Vec<u8> = Vec::new();
+    graph.write_gfa(&mut out).unwrap();
+    let text = String::from_utf8(out).unwrap();
+    // L lines as (from, from_sign, to, to_sign)
+    let mut links: Vec<(usize, bool, usize, bool)> = Vec::new();
+    for l in text.lines() {
+        let f: Vec<&str> = l.split('\t').collect();
+        if f.len() >= 5 && f[0] == "L" {
+            links.push((f[1].parse().unwrap(), f[2] == "+", f[3].parse().unwrap(), f[4] == "+"));
+        }
+    }
+    let mut u = 0;
+    while u < graph.len() {
+        let node = graph.get_node(u);
+        for side_right in [false, true] {
+            let edges = if side_right { node.r_edges() } else { node.l_edges() };
+            for (v, arrive, _) in edges {
+                let arrive_left = match arrive { Dir::Left => true, Dir::Right => false };
+                // "L u s v t": leaves u through its right end iff s is '+', arrives at v's left end iff t is '+';
+                // the same adjacency read from the other end is "L v !t u !s"
+                let listed = links.iter().any(|&(a, sa, b, sb)| {
+                    (a == u && sa == side_right && b == v && sb == arrive_left) || (a == v && sa == !arrive_left && b == u && sb == !side_right)
+                });
+                chk!(s, listed, "GFA export: an adjacency reported by the graph (edge of a node side) has no L line");
+            }
+        }
+        u += 1;
+    }
+}
+
 pub fn replay(name: &str, s: &mut crate::verif::src::RSrc) -> bool {
     match name {
         "g_node_iter_seq" => c_node_iter_seq(s),
+        "g_gfa_links_read" => c_gfa_links_read(s),
         _ => return false,
     }
     true
